@@ -289,7 +289,7 @@ PROPS = {
     },
     "C20": {
         "module": "Shutter.Properties.C20",
-        "theorems": ["C20_all_once", "C20_any_order", "C20_only_pending", "C20_every_interval"],
+        "theorems": ["C20_all_once", "C20_any_order", "C20_only_pending", "C20_every_interval", "C20_prefix", "C20_clean_iff"],
         "driver": {"pkg": "./cmd/epkcheck"},
         "trusted_base": [KERNEL, CORR,
                          "pgfake + kdb: the PostgreSQL wire fake and my Go reading of GetAndDeleteEonPublicKeys (delete all pending rows, "
@@ -332,7 +332,7 @@ PROPS = {
     },
     "C06": {
         "module": "Shutter.Properties.C06",
-        "theorems": ["C06_gnosis_iff", "C06_tamper", "C06_service_unsigned", "C06_service_signed"],
+        "theorems": ["C06_gnosis_iff", "C06_tamper", "C06_service_unsigned", "C06_service_signed", "C06_distinct_signers", "C06_service_tamper"],
         "driver": {"pkg": "./cmd/sgcheck"},
         "trusted_base": [KERNEL, CORR,
                          "modelled, not verified: ECDSA public-key recovery (abstract `recover`), the SSZ hash tree root (injective: the signed "
@@ -392,7 +392,7 @@ PROPS = {
     },
     "C14": {
         "module": "Shutter.Properties.C14",
-        "theorems": ["C14_roundtrip", "C14_uint_strict", "C14_expect_length", "C14_names_checked"],
+        "theorems": ["C14_roundtrip", "C14_injective", "C14_uint_strict", "C14_expect_length", "C14_names_checked"],
         "driver": {"pkg": "./cmd/evcheck"},
         "trusted_base": [KERNEL, CORR,
                          "modelled, not verified: strconv.FormatUint/ParseUint (base 10), hexutil.Encode/Decode, hex.DecodeString, "
